@@ -257,7 +257,7 @@ func run(c *core.Ctx) error {
 	type mc struct{ cfg string; workers int }
 	models := []mc{{"NumericMC_pair_w7.cfg", 2}, {"NumericMC_split_b4l3g2.cfg", 2}, {"NumericMC_pair_w6.cfg", 1}, {"NumericMC_split_b2l4.cfg", 1}}
 	if c.Thorough() {
-		models = append(models, mc{"NumericMC_split_b4l3.cfg", 2}, mc{"NumericMC_split_b4l4.cfg", 4}, mc{"NumericMC_split_b16l2.cfg", 4}, mc{"NumericMC_pair_w8.cfg", 4})
+		models = append(models, mc{"NumericMC_split_b4l3.cfg", 2}, mc{"NumericMC_split_b2l6.cfg", 2}, mc{"NumericMC_split_b16l2.cfg", 4}, mc{"NumericMC_pair_w8.cfg", 4})
 	}
 	if os.Getenv("VERIF_C07_DEV_NOMODELS") != "" { // development aid for mutant runs; makes the run inconclusive
 		models = nil
